@@ -48,6 +48,7 @@ class GenFile:
         self.offset_units = []
         self.groups = {}
         self.systems = {}
+        self.context = None
         self.build(n_units, with_groups, with_offset)
 
     def build(self, n_units, with_groups, with_offset):
@@ -130,6 +131,14 @@ class GenFile:
                     self.unit_names.append(nm)
                 self.groups[g] = (using, members)
             self.systems = {"S1": (["G2"], [])}
+        # a context with a parameter default and a rule between two base dimensions of the file
+        self.context = None
+        if "metre" in self.base and "second" in self.base and rng.random() < 0.7:
+            n = rng.choice(["1.5", "2", "0.25", "2.5", "3"])
+            k = rng.choice(["3.5", "2", "0.5", "7"])
+            self.context = {"name": "CX1", "alias": "cxa", "n": n, "k": k,
+                            "lines": [f"@context(n={n}) CX1 = cxa", f"    [length] -> [time]: value * n * {k} * second / metre",
+                                      "@end"]}
 
     def text(self, order=None, layout=None):
         """render; `order` permutes unit/prefix lines, `layout` varies spacing/comments"""
@@ -168,4 +177,6 @@ class GenFile:
             for r in rules:
                 out.append(f"    {r}")
             out.append("@end")
+        if self.context:
+            out.extend(self.context["lines"])
         return "\n".join(out) + "\n"
